@@ -94,6 +94,13 @@ inline bool valid_for_c01(const Snap &s) {
     for (int e = 0; e < (int)s.E.size(); ++e) if (!s.ed[e]) if (!s.live_v(s.E[e].first) || !s.live_v(s.E[e].second)) return false;
     for (int f = 0; f < (int)s.F.size(); ++f) if (!s.fd[f]) for (int h : s.F[f]) if (!s.live_e(h / 2)) return false;
     for (int c = 0; c < (int)s.C.size(); ++c) if (!s.cd[c]) for (int hf : s.C[c]) if (!s.live_f(hf / 2)) return false;
+    // every live cell is a closed surface (each halfedge of its halffaces matched exactly once by its opposite)
+    for (int c = 0; c < (int)s.C.size(); ++c) if (!s.cd[c]) {
+        if (s.C[c].empty()) return false;
+        std::map<int, int> cnt;
+        for (int hf : s.C[c]) for (int h : s.halfface(hf)) cnt[h]++;
+        for (auto &kv : cnt) { if (kv.second != 1) return false; auto it = cnt.find(kv.first ^ 1); if (it == cnt.end() || it->second != 1) return false; }
+    }
     return true;
 }
 
